@@ -66,7 +66,8 @@ def gen_case(ctx: Ctx) -> dict[str, Any]:
         ids = [f"s{k + i}" for i in range(n)]
         name = r.choice(["wf", "wf2", "Wf"])
         for i in range(n):
-            parent: str | None = None if i == 0 else ids[r.randrange(0, i)]
+            # a root has no parent: None, or the empty string that OTLP/JSON exporters write for `parentSpanId`
+            parent: str | None = (None if r.random() < 0.7 else "") if i == 0 else ids[r.randrange(0, i)]
             nm = name
             if kind == "dangling" and i == n - 1:
                 parent = "absent" + str(k)
